@@ -183,6 +183,7 @@ func (ch c08) multiBind(c *core.Ctx, env *hs.Env, rng *core.Rng) {
 	}
 	defer cl.Finish()
 	n := 2 + rng.Intn(5)
+	nrejected := 0
 	type pb struct {
 		name   string
 		params [][]byte
@@ -206,6 +207,21 @@ func (ch c08) multiBind(c *core.Ctx, env *hs.Env, rng *core.Rng) {
 		}
 		ps = append(ps, b)
 		in = append(in, pg.Bind(b.name, "s", b.pf, b.params, b.rf)...)
+	}
+	if rng.Intn(3) == 0 {
+		// Binds that are rejected (unsupported format code / unknown statement) naming portals that
+		// are already bound: the earlier definitions stay as they were
+		in = append(in, pg.Sync()...)
+		for _, b := range ps {
+			bad := [][]byte{[]byte("REJECTED-" + b.name), []byte("rejected")}
+			if rng.Bool() {
+				in = append(in, pg.Bind(b.name, "s", []int16{7}, bad, nil)...)
+			} else {
+				in = append(in, pg.Bind(b.name, "no-such-statement", nil, bad[:1+rng.Intn(2)], nil)...)
+			}
+			in = append(in, pg.Sync()...)
+		}
+		nrejected = n
 	}
 	withOversize := rng.Intn(3) == 0
 	if withOversize {
@@ -236,7 +252,10 @@ func (ch c08) multiBind(c *core.Ctx, env *hs.Env, rng *core.Rng) {
 			want = t // E with its own ReadyForQuery for a non-Query oversized message, then no extra Z: also admissible
 		}
 	}
-	if err != nil || closed || (pg.Types(msgs) != want && !withOversize) || (withOversize && !strings.HasSuffix(pg.Types(msgs), strings.Repeat("TDC", n)+"Z")) {
+	if nrejected > 0 {
+		c.Count("rejected_rebinds", int64(nrejected))
+	}
+	if err != nil || closed || (pg.Types(msgs) != want && !withOversize && nrejected == 0) || ((withOversize || nrejected > 0) && !strings.HasSuffix(pg.Types(msgs), strings.Repeat("TDC", n)+"Z")) {
 		c.Violate("multi-bind", "multi-portal batch transcript", fmt.Sprintf("%v closed=%v got %s want %s", err, closed, pg.Types(msgs), want), cs)
 		return
 	}
